@@ -24,6 +24,9 @@ TYPES = [("option_value::OptionValueU8", 8), ("option_value::OptionValueU16", 16
 
 
 def check(env, rep, tier):
+    include(rep, env, tier, "c19", ("C19.3", "C19.8"), "C06.11",
+            "'setters store exactly these encodings': the convenience setters replace whatever was there on every path (no 'already set' "
+            "shortcut that keeps a non-minimal or longer list) and go through the typed encoder")
     configs = ["default"] if tier == "quick" else ["default", "nodefault", "udp"]
     rep.configs = configs
     for cfg in configs:
